@@ -70,7 +70,8 @@ CLAIMS = {
                 "binary round trip for every representable definition (all fields, bit-exact scores); same bytes on re-serialization; "
                 "magic/version checks; exporting a canonically ordered definition returns it for every hash iteration order; every export "
                 "returns the specials in the listed order with the same configuration (export_keeps_specials; the code had to be repaired "
-                "for this, F25 4b5b4e8). Model tied to "
+                "for this, F25 4b5b4e8); every tokenizer the constructor builds can export its definition (export_ok_of_init; repair F27 7f48d88). "
+                "Model tied to "
                 "the real serializer and exporter byte for byte on shipped and generated definitions covering every variant.",
         "design_ref": "DESIGN.md §6 C14",
         "note": "Trusted: Lean kernel + 3 standard axioms; translator (tools/extract.py) for the layout; postcard wire details (varint limits, "
